@@ -1357,7 +1357,7 @@ class PolarsModel(data_algebra.data_model.DataModel):
             sk = split[0][blocks_in.record_keys]
             # rows are matched by position below: every block must hold the same records
             for si in split:
-                if si[blocks_in.record_keys].rows() != sk.rows():
+                if not si[blocks_in.record_keys].equals(sk):
                     raise ValueError("blocks do not all hold the same record keys")
         # limit and rename columns
 
